@@ -25,6 +25,17 @@ import (
 
 var extras = map[string][]func(c *Ctx){}
 
+// counters that must be > 0 after the extra families ran (vacuity guards)
+var extraRequire = map[string][]string{
+	"C07": {"cli_diff_collapse-length", "cli_diff_collapse-support", "cli_diff_collapse-depth", "cli_diff_resolve"},
+	"C05": {"cli_diff_reroot-midpoint", "cli_diff_unroot", "cli_diff_reroot-outgroup"},
+	"C09": {"cli_diff_consensus"},
+	"C10": {"cli_diff_support-fbp", "cli_diff_support-tbe"},
+	"C08": {"cli_diff_compare-trees"},
+	"C12": {"cli_diff_acr"},
+	"C15": {"cli_diff_graft", "cli_diff_repopulate", "cli_diff_merge"},
+}
+
 func addExtra(id string, f func(c *Ctx)) { extras[id] = append(extras[id], f) }
 
 type cliDiffCase struct {
